@@ -11,11 +11,14 @@ import vlib
 RULE = ("cases = observations of the real NeoVM, one before every executed instruction and one after Run returned, in "
         "runs of (a) VMRef behaviours (TLC simulation, TLC counterexamples) realised as scripts with round-robin "
         "instruction encodings, (b) seeded random byte strings / opcode streams / mutants / well-typed deep programs, "
-        "(c) scripts walking up to each limit, (d) near misses of the static check; every script under a generous and "
+        "(c) scripts walking up to each limit and scripts raising out-of-range / missing-key exceptions in SETITEM and PICKITEM "
+        "under every kind of handler, (d) near misses of the static check; every script under a generous and "
         "under a tight finite gas limit; distinct = distinct (source class, previous opcode, opcode, counter surplus, "
         "cyclic, invocation depth, try depth) tuples; every observation is non-trivial in that all 12 clauses of "
         "VMLimits are evaluated on it by TLC")
 
+# TLC workers / go build parallelism: modest, the machine is shared with the other checks
+WORKERS = int(os.environ.get("VERIF_TLC_WORKERS", "4"))
 MC_QUICK = ["MC_Q1.cfg", "MC_Q2.cfg", "MC_Q3.cfg"]
 MC_THOROUGH = ["MC_T1.cfg", "MC_T2.cfg", "MC_T3.cfg", "MC_T4.cfg", "MC_T5.cfg"]
 
@@ -60,7 +63,13 @@ def parse_graph(out):
     return init, edges
 
 
-def transition_cover(init, edges, rnd, maxlen=80):
+def transition_cover(init, edges, rnd, maxlen=80, fault_sample=1):
+    """(fault_sample = k: only every k-th transition into the terminal FAULT state has to be covered; each of
+    them costs a walk of its own and nothing is judged after a FAULT)"""
+    return _transition_cover(init, edges, rnd, maxlen, fault_sample)
+
+
+def _transition_cover(init, edges, rnd, maxlen, fault_sample):
     """Walks from the initial state that together traverse every transition at least once: deepest states
     first (their tree paths cover the tree edges on the way), then greedy extension through transitions not
     yet covered, with one step of look-ahead through covered ones."""
@@ -90,6 +99,12 @@ def transition_cover(init, edges, rnd, maxlen=80):
                 parent[t] = ei
                 order.append(t)
     covered = [False] * len(E)
+    nf = 0
+    for i, (_, rec, _) in enumerate(E):
+        if rec.get("b") == -1 and rec["op"] in ("setitem_oor", "pickitem_oor", "pickmap_missing"):
+            nf += 1
+            if nf % fault_sample:
+                covered[i] = True
     todo = {s: list(l) for s, l in out.items()}
 
     def pending(s):
@@ -227,13 +242,13 @@ def run(ctx):
                     ("CONSTRAINT LeakBound", "CONSTRAINT LeakBound AbsCount")]
         name = cfg_variant(ctx, cfg, cfg.replace(".cfg", "_cov.cfg" if judged else "_graph.cfg"), repl)
         st, tr = ctx.states, ctx.transitions
-        r = ctx.tlc_mc("vmref", "VMRefCover.tla", name, timeout=900 if q else 3000)
+        r = ctx.tlc_mc("vmref", "VMRefCover.tla", name, timeout=900 if q else 3000, workers=WORKERS)
         if not judged:      # nothing was verified in this run: it does not count as explored states
             ctx.states, ctx.transitions = st, tr
         init, edges = parse_graph(r["out"])
         if init is None or len(edges) + 1 != r["transitions"]:
             raise vlib.Inconclusive("could not read the state graph of %s (%d edges of %d)" % (cfg, len(edges), r["transitions"]))
-        walks, nstates = transition_cover(init, edges, rnd)
+        walks, nstates = transition_cover(init, edges, rnd, fault_sample=4 if q else 1)
         if nstates < r["states"]:      # (targets outside the state constraint are printed too)
             raise vlib.Inconclusive("state graph of %s: %d states read, TLC found %d" % (cfg, nstates, r["states"]))
         cover_stats[cfg] = {"states": nstates, "transitions": len(edges), "walks": len(walks),
@@ -247,7 +262,7 @@ def run(ctx):
             if cfg in cover_cfgs:
                 covers.append(mc_cover(cfg))
             else:
-                ctx.tlc_mc("vmref", "VMRef.tla", cfg, timeout=3000)
+                ctx.tlc_mc("vmref", "VMRef.tla", cfg, timeout=3000, workers=WORKERS)
         except vlib.ModelError as e:
             # A counterexample inside the model is not a verdict: it is realised on the real VM (stages 3/4 judge it).
             # The rest of the state space is verified for the other code shape of the implicated instruction, and
@@ -263,17 +278,17 @@ def run(ctx):
             cur = re.search(r"MapRemoveDropsFirst = (TRUE|FALSE)", open(os.path.join(ctx.spec_scratch("vmref"), cfg)).read()).group(1)
             other = "FALSE" if cur == "TRUE" else "TRUE"
             alt = cfg_variant(ctx, cfg, cfg.replace(".cfg", "_alt.cfg"), [("MapRemoveDropsFirst", "MapRemoveDropsFirst = " + other)])
-            ctx.tlc_mc("vmref", "VMRef.tla", alt, timeout=900 if q else 3000)
+            ctx.tlc_mc("vmref", "VMRef.tla", alt, timeout=900 if q else 3000, workers=WORKERS)
             if cfg in cover_cfgs:
                 covers.append(mc_cover(cfg, judged=False))
     ctx.extra["transition_cover"] = cover_stats
     ctx.extra["model_counterexamples"] = cex_found
     # model-level non-vacuity: the named deviations must be caught by the same invariants
-    for bug in ("BugAppend", "BugRemGuard"):
+    for bug in ("BugAppend", "BugRemGuard", "BugOORDoubleRelease"):
         name = cfg_variant(ctx, "MC_Q1.cfg", "MC_Q1_%s.cfg" % bug,
                            [("%s = FALSE" % bug, "%s = TRUE" % bug), ("MapRemoveDropsFirst", "MapRemoveDropsFirst = TRUE")])
         try:
-            ctx.tlc_mc("vmref", "VMRef.tla", name, timeout=600)
+            ctx.tlc_mc("vmref", "VMRef.tla", name, timeout=600, workers=WORKERS)
             raise vlib.Inconclusive("deviation %s not detected by the model invariants (vacuous model)" % bug)
         except vlib.ModelError as e:
             if "is violated" not in (e.res["out"] if e.res else ""):
@@ -326,7 +341,7 @@ def run(ctx):
         env.update({"VERIF_BYTES": 250, "VERIF_OPS": 400, "VERIF_DEEP": 150, "VERIF_LIMIT_ROUNDS": 1, "VERIF_STATIC": 1})
     else:
         env.update({"VERIF_BYTES": 8000, "VERIF_OPS": 16000, "VERIF_DEEP": 6000, "VERIF_LIMIT_ROUNDS": 6, "VERIF_STATIC": 6})
-    res = ctx.go_driver("c12vm", "TestDriver", env=env, timeout=3000)
+    res = ctx.go_driver("c12vm", "TestDriver", env=env, timeout=3000, extra=["-p", "4"])
     ctx.absorb(res)
     st = res.get("stats") or {}
     pc = st.get("per_class") or {}
@@ -336,6 +351,9 @@ def run(ctx):
     for k, v in need.items():
         if lim.get(k, 0) < v:
             raise vlib.Inconclusive("limit scripts did not reach %s = %d (got %s)" % (k, v, lim.get(k)))
+    if st.get("oor_cases_handled", 0) * 2 < max(1, st.get("oor_cases", 0)):
+        raise vlib.Inconclusive("most instruction-raised exceptions were not caught by the scripts' handlers (%s of %s)" % (
+            st.get("oor_cases_handled"), st.get("oor_cases")))
     if not st.get("static_ok_accepted"):
         raise vlib.Inconclusive("no well-formed jump script passed the static check: nothing was probed")
     if (st.get("behaviours_replayed_to_the_end", 0) * 10) < 9 * max(1, st.get("behaviours", 0) - cex_found):
